@@ -180,7 +180,9 @@ type vC20Bus struct {
 	recorded  []vC20Delivery
 	hist      []string // concurrent mode: event log in logical-clock order
 	conc      bool
-	held      map[int]bool
+	held      map[int]bool // armed: the next callback of the listener blocks at entry
+	blocked   map[int]int  // callbacks blocked at entry, per listener
+	releases  map[int]int  // generation counter of `release`
 	rereg     map[[2]int]int // (listener, subject) -> variant, armed self re-registration
 	sentinel  map[string]int
 	listeners map[int]*vC20Listener
@@ -198,7 +200,7 @@ func (l *vC20Listener) ProcessAsyncSessionMessage(m *AsyncMessage) { l.b.on(l, "
 
 func newVC20Bus(own bool) *vC20Bus {
 	b := &vC20Bus{
-		published: map[int]string{}, pubSubj: map[int]int{}, held: map[int]bool{},
+		published: map[int]string{}, pubSubj: map[int]int{}, held: map[int]bool{}, blocked: map[int]int{}, releases: map[int]int{},
 		rereg: map[[2]int]int{}, sentinel: map[string]int{}, listeners: map[int]*vC20Listener{},
 	}
 	b.cond = sync.NewCond(&b.mu)
@@ -246,8 +248,15 @@ func (b *vC20Bus) on(l *vC20Listener, kind string, m *AsyncMessage) {
 		b.mu.Unlock()
 		return
 	}
-	for b.held[l.id] {
-		b.cond.Wait()
+	if b.held[l.id] {
+		// one-shot: this callback blocks until `release`, later ones pass
+		delete(b.held, l.id)
+		b.blocked[l.id]++
+		gen := b.releases[l.id]
+		for b.releases[l.id] == gen {
+			b.cond.Wait()
+		}
+		b.blocked[l.id]--
 	}
 	idx, s := -1, 999
 	parts := strings.SplitN(m.Id, "/", 3)
@@ -495,8 +504,9 @@ func vC20ExecDet(c *vCase) {
 	b := newVC20Bus(own)
 	defer func() {
 		b.mu.Lock()
-		for l := range b.held {
+		for l := range b.listeners {
 			delete(b.held, l)
+			b.releases[l]++
 		}
 		b.cond.Broadcast()
 		b.mu.Unlock()
@@ -542,7 +552,7 @@ func vC20ExecDet(c *vCase) {
 			} else {
 				b.mu.Lock()
 				for l := range regd[s] {
-					if !b.held[l] {
+					if !b.held[l] && b.blocked[l] == 0 {
 						expected++
 					}
 				}
@@ -580,6 +590,7 @@ func vC20ExecDet(c *vCase) {
 		case "release":
 			b.mu.Lock()
 			delete(b.held, atoi(1))
+			b.releases[atoi(1)]++
 			b.cond.Broadcast()
 			b.mu.Unlock()
 			b.waitFor(expected, true)
@@ -594,7 +605,10 @@ func vC20ExecDet(c *vCase) {
 			b.waitFor(expected, usesHold)
 			out = b.flush(&from)
 			b.mu.Lock()
-			nheld := len(b.held)
+			nheld := 0
+			for _, n := range b.blocked {
+				nheld += n
+			}
 			b.mu.Unlock()
 			complete := nheld == 0 && !lw.slow()
 			if own {
@@ -718,6 +732,9 @@ func vC20GenDet(rr *vRand, own bool, maxOps int) []string {
 		subjects[i] = rr.intn(len(vC20Subjects))
 	}
 	nl := 1 + rr.intn(4)
+	if rr.chance(1, 4) {
+		nl = 5 + rr.intn(3) // larger listener sets with holes: where a map iteration can produce an entry twice
+	}
 	isReg := map[[2]int]bool{}
 	queued := 0
 	nops := 6 + rr.intn(maxOps)
@@ -784,9 +801,10 @@ func vC20GenHold(rr *vRand) []string {
 		ops = append(ops, fmt.Sprintf("pub %d 0", s), fmt.Sprintf("pub %d 0", s), fmt.Sprintf("unreg 1 %d 0", s), "release 1",
 			fmt.Sprintf("pub %d 0", s))
 	default:
-		// leave and join again while a callback is stuck: afterwards a second receiver goroutine serves the listener
+		// leave and join again while a callback is stuck: the subscriber made for the subject must not let newer
+		// messages overtake the stuck one
 		ops = append(ops, fmt.Sprintf("pub %d 0", s), fmt.Sprintf("unreg 1 %d 0", s), fmt.Sprintf("reg 1 %d 0", s),
-			"release 1", fmt.Sprintf("pub %d 0", s), fmt.Sprintf("pub %d 0", s))
+			fmt.Sprintf("pub %d 0", s), fmt.Sprintf("pub %d 0", s), "release 1", fmt.Sprintf("pub %d 0", s))
 	}
 	return append(ops, "drain", "end")
 }
@@ -802,8 +820,8 @@ func vC20Gen(e *vEnv, r *vRand) []vCase {
 	for i, n := 0, e.scale(6, 30); i < n; i++ {
 		cases = append(cases, vCase{Ops: vC20GenHold(r.fork()), Tags: []string{"hold"}})
 	}
-	for i, n := 0, e.scale(40, 400); i < n; i++ {
-		cases = append(cases, vCase{Ops: []string{fmt.Sprintf("conc %d %d %d %d", r.u64()%1000000, e.scale(6, 8), e.scale(200, 300), 2+r.intn(3))},
+	for i, n := 0, e.scale(40, 300); i < n; i++ {
+		cases = append(cases, vCase{Ops: []string{fmt.Sprintf("conc %d %d %d %d", r.u64()%1000000, e.scale(6, 8), 200, 1+r.intn(4))},
 			Tags: []string{"conc"}})
 	}
 	return cases
